@@ -165,7 +165,16 @@ def get_txt_pos_ml(toks, main_lang, parms):
         if type(t) is not defs.LanguageToken:
             cur_sec.append(t)
             continue
-        if t.lang == lang_stack[-1]:
+        if not t.back and t.lang == lang_stack[-1]:
+            # language does not change: no new section, but a soft switch
+            # has to be remembered, its closing token will pop
+            if not t.hard:
+                lang_stack.append(t.lang)
+            continue
+        if (t.back and len(lang_stack) > 1
+                    and lang_stack[-2] == lang_stack[-1]):
+            # closing token of such a switch
+            lang_stack.pop()
             continue
         txt, pos = get_txt_pos(cur_sec)
         cur_sec = []
